@@ -364,4 +364,48 @@ def oneUint64 : U64 := zeroUint64.set64 1
 def oneUint128 : U128 := zeroUint128.set64 1
 def oneUint256 : U256 := zeroUint256.set64 1
 
+/-! ## `log.Warnf` as an outcome component
+
+The number of `log.Warnf` calls a method executes (logrus warnings: no effect on the returned value, but observable;
+the harness captures them with a logrus hook and compares the count on every case line).  Only the narrowing casts
+and `LeftShift64`/`RightShift64` (and their callers) contain a `log.Warnf`; every other method logs nothing.
+`Gen/FpGen.lean` regenerates these counts from the Go source (`<method>_warns`), `Props/C20Gen.lean` proves them equal. -/
+
+/-- `Uint64.LeftShift64(n, _)`: the `log.Warnf("Uint64 overflow at LeftShift64 …")` after the switch is reached iff
+no case matched, i.e. `n ≥ 128` -/
+def leftShift64Warns (n : Nat) : Nat := if n < 128 then 0 else 1
+/-- `Uint64.RightShift64(n, _)` -/
+def rightShift64Warns (n : Nat) : Nat := if n < 128 then 0 else 1
+
+namespace U64
+/-- `Uint64.LeftShift(n)` = one `LeftShift64` -/
+def leftShiftWarns (_u : U64) (n : Nat) : Nat := leftShift64Warns n
+def rightShiftWarns (_u : U64) (n : Nat) : Nat := rightShift64Warns n
+end U64
+
+namespace U128
+/-- `Uint128.Uint64`: `if u.w1 != 0 { log.Warnf(…) }` -/
+def toU64Warns (u : U128) : Nat := if u.w1 != 0 then 1 else 0
+/-- `Uint128.LeftShift(n)` = two `LeftShift64` with the same `n` -/
+def leftShiftWarns (_u : U128) (n : Nat) : Nat := leftShift64Warns n + leftShift64Warns n
+def rightShiftWarns (_u : U128) (n : Nat) : Nat := rightShift64Warns n + rightShift64Warns n
+end U128
+
+namespace U256
+/-- `Uint256.Uint64`: `if u.w3 != 0 || u.w2 != 0 || u.w1 != 0 { log.Warnf(…) }` -/
+def toU64Warns (u : U256) : Nat := if u.w3 != 0 || u.w2 != 0 || u.w1 != 0 then 1 else 0
+/-- `Uint256.Uint128`: `if u.w3 != 0 || u.w2 != 0 { log.Warnf(…) }` -/
+def toU128Warns (u : U256) : Nat := if u.w3 != 0 || u.w2 != 0 then 1 else 0
+/-- `Uint256.LeftShift(n)`: nothing for `n ≥ 256` (early return), else four `LeftShift64` with the amount left by
+the whole-limb loop (hand transcribed like `leftShift`: the method has a `for`) -/
+def leftShiftWarns (u : U256) (n : Nat) : Nat :=
+  if n ≥ 256 then 0 else
+  let m := (limbsLeft 4 u n).2
+  leftShift64Warns m + leftShift64Warns m + leftShift64Warns m + leftShift64Warns m
+def rightShiftWarns (u : U256) (n : Nat) : Nat :=
+  if n ≥ 256 then 0 else
+  let m := (limbsRight 4 u n).2
+  rightShift64Warns m + rightShift64Warns m + rightShift64Warns m + rightShift64Warns m
+end U256
+
 end ObiVerif.Fp
